@@ -66,6 +66,11 @@ class Report:
         self.notes = {}
         self.findings = [f for f in load_findings(prop)]
 
+    def mark(self, phase):
+        now = time.time()
+        self.coverage.setdefault("phase_wall_s", {})[phase] = round(now - getattr(self, "_tmark", self.t0), 2)
+        self._tmark = now
+
     # -- model checking numbers
     def add_mc(self, name, stats, wall):
         self.coverage["states"] += stats["distinct"]
